@@ -132,6 +132,10 @@ def run(ctx):
         for s in core.singletons(ver, rng, ctx.n(12, 200)):
             pfx, fields = obs.parse_fields(ver, s)
             cases.append((ver, dict(fields), pfx, s))
+    for ver in "234":
+        for s in core.special(ver, rng, ctx.n(800, 15000)):
+            pfx, fields = obs.parse_fields(ver, s)
+            cases.append((ver, dict(fields), pfx, s))
     ctx.count(len(cases) * 4)
     ctx.sample({"vector": cases[0][3]})
     for ver in "234":
